@@ -25,8 +25,8 @@ def mesh_equal(
         return PredicateResult(False, report=f"Differing points - '{points_equal.report}'")
 
     source_ct, target_ct = set(source.cell_types), set(target.cell_types)
-    diff = source_ct.difference(target_ct).union(target_ct.difference(source_ct))
-    if len(_without_compatibles(diff)) != 0:
+    source_only, target_only = source_ct.difference(target_ct), target_ct.difference(source_ct)
+    if len(_without_compatibles(source_only, target_only)) != 0:
         return PredicateResult(False, report="Differing grid cell types detected")
 
     for cell_type in source.cell_types:
@@ -65,12 +65,12 @@ def _get_dynamic_size_corner_indices_sorted(corners: Array) -> Array:
     return make_array([c[get_sorting_index_map(c)] for c in corners], dtype="object")
 
 
-def _without_compatibles(cts: set[CellType]) -> set[CellType]:
+def _without_compatibles(source_only: set[CellType], target_only: set[CellType]) -> set[CellType]:
     to_remove: set[CellType] = set()
-    for c1, c2 in product(cts, cts):
+    for c1, c2 in product(source_only, target_only):
         if c1.is_compatible_with(c2):
             to_remove = to_remove.union(set([c1, c2]))
-    return cts.difference(to_remove)
+    return source_only.union(target_only).difference(to_remove)
 
 
 def _find_compatible(cts: set[CellType], ct: CellType) -> CellType:
